@@ -557,6 +557,18 @@ def rules(rep, m):
         f = hh[fn]
         cx = FuncCtx(m, f)
         st = {cx.canon(l): cx.canon(r) for l, r, k, n in inv.stores(f) if r is not None}
+        # a cursor into an array: 'p->f' is 'A[(p - A)].f' when the function itself forms the index 'p - A'
+        pdiff = {}
+        for y in walk(f.body):
+            if y["kind"] == "BinaryOperator" and y.get("opcode") == "-" and "*" in (strip(kids(y)[0], casts=True).get("type") or ""):
+                a_, b_ = strip(kids(y)[0], casts=True), strip(kids(y)[1], casts=True)
+                if a_["kind"] == "DeclRefExpr" and b_["kind"] == "DeclRefExpr":
+                    pdiff[a_["ref"]["name"]] = (b_["ref"]["name"], cx.canon(y))
+        for k in list(st):
+            mm_ = re.fullmatch(r"(\w+)->(\w+)", k)
+            if mm_ and mm_.group(1) in pdiff:
+                base_, ix_ = pdiff[mm_.group(1)]
+                st["%s[%s].%s" % (base_, ix_, mm_.group(2))] = st.pop(k)
         fw = [(k, v) for k, v in st.items() if k.endswith(".hash_index")]
         bw = [(k, v) for k, v in st.items() if k.endswith(".heap_index")]
         ok = False
@@ -897,6 +909,48 @@ def rules(rep, m):
             r10.fail()
         else:
             r10.ok()
+    # nobody else walks a probe sequence of its own: a function other than the two probers that starts from hash_key()
+    # must step exactly like them (index form), otherwise entries land where the finder - which wraps - never looks
+    for f in m.funcs.values():
+        if (m.rel(f.file) or "") not in ("src/cmi_hashheap.c", "src/cmi_hashheap.h") or f.name in ("cmi_hash_find_index", "hash_find_slot", "hash_key"):
+            continue
+        hcalls = [c for c in walk(f.body) if c["kind"] == "CallExpr" and callee_ref(c) == "hash_key"]
+        if not hcalls:
+            continue
+        cx = FuncCtx(m, f)
+        for c in hcalls:
+            # the variable that receives the start (an index, or a pointer &map[start])
+            holder = None
+            for d in walk(f.body):
+                if d["kind"] == "VarDecl" and kids(d) and any(y is c for y in walk(kids(d)[0])):
+                    holder = d
+            for l, r_, k_, n_ in inv.stores(f):
+                if r_ is not None and any(y is c for y in walk(r_)) and strip(l, casts=True)["kind"] == "DeclRefExpr":
+                    holder = strip(l, casts=True)["ref"]
+            if holder is None:
+                raise AnalysisBroken("%s: what is done with hash_key() is not understood" % f.name)
+            hid, hname = holder["id"], holder["name"]
+            is_ptr = "*" in (holder.get("type") or "")
+            adv = [y for y in walk(f.body) if y["kind"] == "UnaryOperator" and y.get("opcode") in ("++", "--") and
+                   strip(kids(y)[0], casts=True).get("ref", {}).get("id") == hid]
+            sets = [(cx.canon(r_), n_) for l, r_, k_, n_ in inv.stores(f) if r_ is not None and
+                    strip(l, casts=True).get("ref", {}).get("id") == hid and not any(y is c for y in walk(r_))]
+            r10.instance("%s: own probe sequence from hash_key() in '%s' (%d step(s))" % (f.name, hname, len(adv) + len(sets)))
+            if not adv and not sets:
+                r10.ok()
+                continue
+            hpn = f.params[0]["name"] if f.params else "hp"
+            want = {"((%s + 1) & (%s->hash_size - 1))" % (hname, hpn), "((%s->hash_size - 1) & (%s + 1))" % (hpn, hname)}
+            if not is_ptr and not adv and all(v in want for v, n_ in sets):
+                r10.ok()
+                continue
+            if is_ptr and sets:
+                raise AnalysisBroken("%s: a pointer probe that is re-based (%s) is not understood" % (f.name, [v for v, n_ in sets]))
+            rep.finding(r10, f.name, "probe:no-wrap", "%s walks its own probe sequence from hash_key() in '%s' and advances it without "
+                        "reducing it modulo the map size ((i + 1) & (hash_size - 1)): a chain that reaches the end of the map runs "
+                        "past it, while the finder wraps to slot 0 and never finds the entry stored there"
+                        % (f.name, hname), where=m.rel(loc((adv or [sets[0][1]])[0])))
+            r10.fail()
 
 
 def run(tier="quick"):
